@@ -16,3 +16,50 @@ PROPS["C13"] = dict(
              record_args={"quick": ["-n", 120, "-ops", 60], "thorough": ["-n", 4000, "-ops", 200]}),
     ],
 )
+
+_graph_note = ("Trusted: TLC, the binder's comparison code; the spec's definitions are cross-checked by TLC on every enumerated graph "
+               "(orders are permutations of the reachable set, components partition the nodes, the condensation is acyclic, the immediate dominator "
+               "is unique, two formulations of the dominance frontier agree; on graphs of <= 3 nodes the table-based evaluation equals the literal definitions). "
+               "Graphs beyond the enumerated bounds are covered by recorded random graphs only.")
+
+PROPS["C18"] = dict(
+    family="graph",
+    technique="TLA+ definitions of DFS orders, SCCs (mutual reachability), condensation, transpose, subgraphs, Dot quoting and a NodeMarks state machine with a storage-refinement layer, enumerated by TLC over all small digraphs / histories / strings and replayed into graph, graphalg, graphout; recorded NodeMarks histories validated by a TLC trace spec",
+    level_text="TLC enumerates every ordered multigraph on <= 3 nodes (<= 4 edges, thorough 6) and every digraph on 4 nodes with <= 6 edges (thorough: all 65,536, and 5 nodes with <= 6 edges) with expected pre/post/Euler orders for every root, the SCC partition, condensation edges and predecessor bags; the binder replays them into the real API (also padded so node ids cross 32/1024/2048/65536, with permuted and duplicated adjacency lists); SCC is judged relationally. Subgraph Keep/Remove requests for every node subset, all strings up to length 4 (thorough 5) over the quoting alphabet, and all Mark/Unmark histories to depth 3 (thorough 5) over storage-boundary ids are enumerated likewise; random NodeMarks histories with ids to 100000 are validated by MarksTrace.tla",
+    level_note=_graph_note,
+    stages=[
+        dict(name="graphs3", kind="gen", module="Graph.tla", cfg="Graph_gen.cfg",
+             consts=dict(MaxNodes=3, MaxEdges={"quick": 4, "thorough": 6}, Ordered="TRUE", Extra="TableAgrees")),
+        dict(name="graphs4", kind="gen", module="Graph.tla", cfg="Graph_gen.cfg",
+             consts=dict(MaxNodes=4, MaxEdges={"quick": 6, "thorough": 16}, Ordered="FALSE", Extra="")),
+        dict(name="graphs5", kind="gen", module="Graph.tla", cfg="Graph_gen.cfg", tiers=["thorough"],
+             consts=dict(MaxNodes=5, MaxEdges=6, Ordered="FALSE", Extra="")),
+        dict(name="sub3", kind="gen", family="sub", module="Graph.tla", cfg="Graph_sub.cfg",
+             consts=dict(MaxNodes=3, MaxEdges={"quick": 4, "thorough": 5}, Ordered="TRUE")),
+        dict(name="sub4", kind="gen", family="sub", module="Graph.tla", cfg="Graph_sub.cfg",
+             consts=dict(MaxNodes=4, MaxEdges={"quick": 4, "thorough": 6}, Ordered="FALSE")),
+        dict(name="dot", kind="gen", family="dot", module="Dot.tla", cfg="Dot_gen.cfg",
+             consts=dict(MaxLen={"quick": 4, "thorough": 5})),
+        dict(name="marks", kind="gen", family="marks", module="Marks.tla", cfg="Marks_gen.cfg",
+             consts=dict(Depth={"quick": 3, "thorough": 5})),
+        dict(name="marks_trace", kind="trace", family="marks", module="MarksTrace.tla", cfg="MarksTrace.cfg",
+             record_args={"quick": ["-n", 200, "-ops", 150], "thorough": ["-n", 3000, "-ops", 300]}),
+    ],
+)
+PROPS["C18"]["stages"] = [dict(st, specdir="graph") for st in PROPS["C18"]["stages"]]
+
+PROPS["C19"] = dict(
+    family="dom",
+    technique="TLA+ definition of dominance by node deletion (immediate dominators, dominance frontiers) evaluated by TLC on every enumerated digraph and root, replayed into graphalg.IDom/Dom/DomFrontier with permuted lists, parallel edges and padded ids",
+    level_text="TLC enumerates every ordered multigraph on <= 3 nodes and every digraph on 4 nodes with <= 6 edges (thorough: all 65,536, and 5 nodes with <= 6 edges) and computes IDom and DomFrontier for every root from the node-deletion definition (cross-checked against the idom-chain formulation); the binder calls the real IDom, Dom and DomFrontier (nil and supplied idom) on each (graph, root), also with permuted adjacency lists, parallel edges and padded node ids, under recover and a watchdog; root membership in a frontier is don't-care when the root has exactly one incoming edge, as the statement says",
+    level_note=_graph_note,
+    stages=[
+        dict(name="graphs3", kind="gen", module="Graph.tla", cfg="Graph_gen.cfg",
+             consts=dict(MaxNodes=3, MaxEdges={"quick": 4, "thorough": 6}, Ordered="TRUE", Extra="TableAgrees")),
+        dict(name="graphs4", kind="gen", module="Graph.tla", cfg="Graph_gen.cfg",
+             consts=dict(MaxNodes=4, MaxEdges={"quick": 6, "thorough": 16}, Ordered="FALSE", Extra="")),
+        dict(name="graphs5", kind="gen", module="Graph.tla", cfg="Graph_gen.cfg", tiers=["thorough"],
+             consts=dict(MaxNodes=5, MaxEdges=6, Ordered="FALSE", Extra="")),
+    ],
+)
+PROPS["C19"]["stages"] = [dict(st, specdir="graph") for st in PROPS["C19"]["stages"]]
